@@ -594,9 +594,9 @@ func (e *termEnv) termOf(v ssa.Value) *Term {
 	case *ssa.Alloc:
 		return tleaf("alloc:" + typeShort(x.Type()))
 	case *ssa.IndexAddr:
-		return mk("addr", "", mk("index", "", e.termOf(x.X), e.termOf(x.Index)))
+		return mk("addr", "", tindex(e.termOf(x.X), e.termOf(x.Index)))
 	case *ssa.Index:
-		return mk("index", "", e.termOf(x.X), e.termOf(x.Index))
+		return tindex(e.termOf(x.X), e.termOf(x.Index))
 	case *ssa.Slice:
 		// variadic argument lists: a slice of a local array whose elements are stored individually
 		if al, ok := x.X.(*ssa.Alloc); ok && x.Low == nil && x.High == nil {
@@ -754,7 +754,7 @@ func (e *termEnv) load(u *ssa.UnOp) *Term {
 		}
 		return tleaf(fmt.Sprintf("local:%s", typeShort(a.Type())))
 	case *ssa.IndexAddr:
-		return mk("index", "", e.termOf(a.X), e.termOf(a.Index))
+		return tindex(e.termOf(a.X), e.termOf(a.Index))
 	case *ssa.FreeVar:
 		return tleaf("freevar:" + a.Name())
 	}
@@ -1211,19 +1211,23 @@ func rangeIndexOf(bo *ssa.BinOp) ssa.Value {
 		return nil
 	}
 	phi, ok := bo.X.(*ssa.Phi)
-	if !ok || len(phi.Edges) != 2 {
+	if !ok || len(phi.Edges) < 2 {
 		return nil
 	}
 	c, ok := bo.Y.(*ssa.Const)
 	if !ok || c.Value == nil || c.Value.Kind() != constant.Int || c.Int64() != 1 {
 		return nil
 	}
-	okPhi := false
-	for i := 0; i < 2; i++ {
-		if k, isC := phi.Edges[i].(*ssa.Const); isC && k.Value != nil && k.Value.Kind() == constant.Int && k.Int64() == -1 && phi.Edges[1-i] == ssa.Value(bo) {
-			okPhi = true
+	// one entry edge carrying -1; every back edge (there are several when the body branches) carries idx+1 itself
+	inits, backs := 0, 0
+	for _, ed := range phi.Edges {
+		if k, isC := ed.(*ssa.Const); isC && k.Value != nil && k.Value.Kind() == constant.Int && k.Int64() == -1 {
+			inits++
+		} else if ed == ssa.Value(bo) {
+			backs++
 		}
 	}
+	okPhi := inits == 1 && backs == len(phi.Edges)-1
 	if !okPhi || bo.Block() != phi.Block() {
 		return nil
 	}
@@ -1290,4 +1294,21 @@ func (e *termEnv) boolPhi(p *ssa.Phi) *Term {
 		return mk("or", "", parts...)
 	}
 	return mk("and", "", parts...)
+}
+
+// tindex builds base[idx] and normalises an index into a re-sliced base: (A[lo:hi])[i] = A[lo+i]; a range index
+// (0,1,2,...) offset by lo is the counted variable iv(lo, 1).
+func tindex(base, idx *Term) *Term {
+	if base.Op == "slice" && len(base.Args) == 3 {
+		lo := base.Args[1]
+		var ni *Term
+		if idx.Op == "rangeidx" {
+			ni = mk("iv", "", lo, tconst(1))
+			ni.Name = "iv"
+		} else {
+			ni = tadd(lo, idx)
+		}
+		return tindex(base.Args[0], ni)
+	}
+	return mk("index", "", base, idx)
 }
